@@ -4,5 +4,6 @@ CONSTANTS
   Vals = {0, 1}
   IsBlob = FALSE
   SetterMarksDirty = TRUE
+  ExplicitSha1Recomputes = TRUE
   ChunkedResetsSha = TRUE
 CHECK_DEADLOCK FALSE
